@@ -84,7 +84,7 @@ func main() {
 	for i := range keys {
 		keys[i] = fmt.Sprintf("case-%d", i)
 	}
-	harness.RunSharded(run, keys, harness.ShardOptions{PerCaseTimeout: 100 * time.Second, Group: func(key string) string { return fmt.Sprint(fullsync.ChunkOf(key)) },
+	harness.RunSharded(run, keys, harness.ShardOptions{PerCaseTimeout: 20 * time.Minute, Group: func(key string) string { return fmt.Sprint(fullsync.ChunkOf(key)) },
 		AbnormalSig: func(key, why, tail string) (string, string) {
 			return "replay-of-valid-snapshot-does-not-terminate-or-crashes", "replay of a valid snapshot " + why
 		}}, func(key string, res *harness.CaseResult) {
@@ -108,8 +108,12 @@ func main() {
 			w["keys"] = ks
 			return w
 		}
+		if out.Slow {
+			res.Inconc("replay still progressing after 15 min (slow, not hung): %s", sc.String())
+			return
+		}
 		if !out.Returned {
-			res.Violation("replay-of-valid-snapshot-hangs", "Send did not return within 75 s for a valid snapshot", witness())
+			res.Violation("replay-of-valid-snapshot-hangs", "Send did not return and neither the target received a request nor the snapshot reader a byte for two 3 s windows", witness())
 			return
 		}
 		if sc.Bisync && out.Err != nil && contains(out.Err.Error(), "Bad data format") {
